@@ -186,6 +186,9 @@ type vfC06Step struct {
 	PickRm     bool // subscribe: target a channel whose compensating remove is parked (when there is one)
 	Multi      bool // park tick: keep the add gates of the other channels armed so the SAME tick parks again later
 	PickOther  bool // unsubscribe: target a subscribed channel whose add is NOT parked right now
+	SubGate    int  // subscribe/unsubscribe race: 0 subscribe parked in the async OnSubscribe callback, 1 in its AddPresence
+	UnsubMode  int  // subscribe/unsubscribe race: 0 command, 1 Client.Unsubscribe, 2 Node.Unsubscribe
+	Hold       bool // subscribe/unsubscribe race: release only after the unsubscribe's 5 s wait timed out
 	Adv        int
 }
 
@@ -203,6 +206,8 @@ func (s vfC06Step) String() string {
 		return fmt.Sprintf("release(rmGate=%v)", s.RmGate)
 	case 6:
 		return "releaseToNextAdd"
+	case 7:
+		return fmt.Sprintf("unsubWhileSubInFlight(c%d %s subMode=%d gate=%d unsubMode=%d holdPastTimeout=%v)", s.Conn, vfC06Chans[s.Ch], s.Mode, s.SubGate, s.UnsubMode, s.Hold)
 	}
 	return fmt.Sprintf("adv(%ds)", s.Adv)
 }
@@ -245,6 +250,17 @@ func vfC06Gen(rt *rapid.T) vfC06Case {
 		}
 		return s
 	}
+	race := func() vfC06Step {
+		r := vfC06Step{Kind: 7, Conn: conn(), Ch: rapid.IntRange(0, 5).Draw(rt, "rch"), SubGate: rapid.IntRange(0, 1).Draw(rt, "subGate"),
+			UnsubMode: rapid.IntRange(0, 2).Draw(rt, "unsubMode"), Hold: rapid.IntRange(0, 5).Draw(rt, "hold") == 0}
+		if r.SubGate == 1 {
+			// parked inside AddPresence the subscribe blocks the connection's command reader (or is a server-side
+			// Client.Subscribe), so the unsubscribe comes from the server API
+			r.Mode = rapid.IntRange(0, 1).Draw(rt, "subMode")
+			r.UnsubMode = rapid.IntRange(1, 2).Draw(rt, "unsubModeSrv")
+		}
+		return r
+	}
 	// a prefix of subscribes so that ticks have something to do
 	npre := rapid.IntRange(2, 6).Draw(rt, "npre")
 	for i := 0; i < npre; i++ {
@@ -255,7 +271,14 @@ func vfC06Gen(rt *rapid.T) vfC06Case {
 		for n := rapid.IntRange(0, 2).Draw(rt, "noise"); n > 0; n-- {
 			c.Steps = append(c.Steps, free())
 		}
-		variant := rapid.SampledFrom([]int{0, 0, 3, 3, 1, 1, 2}).Draw(rt, "variant")
+		variant := rapid.SampledFrom([]int{0, 0, 3, 3, 1, 1, 2, 4, 4}).Draw(rt, "variant")
+		if variant == 4 {
+			// an unsubscribe arrives while a subscribe with presence is still in flight
+			for n := rapid.IntRange(1, 2).Draw(rt, "nrace"); n > 0; n-- {
+				c.Steps = append(c.Steps, race())
+			}
+			continue
+		}
 		if variant == 3 {
 			// the same tick parks several times: 4-6 channels, park at the first add, unsubscribe 1-3 OTHER channels
 			// completely, let the tick run to its next add, unsubscribe THAT channel (or close), release
@@ -360,8 +383,17 @@ func vfC06Run(t *testing.T, cs vfC06Case, out *vfC06Out, isKnown func(string) bo
 		w.Connecting = func(c *vfConn, e ConnectEvent) (ConnectReply, error) {
 			return ConnectReply{Credentials: &Credentials{UserID: c.User, Info: []byte(`{"n":"` + c.Name + `"}`)}}, nil
 		}
-		w.ChanOpts = func(c *vfConn, e SubscribeEvent) (SubscribeReply, error) {
-			return SubscribeReply{Options: subOpts(e.Channel)}, nil
+		asyncCb := "" // "<conn>:<channel>" whose OnSubscribe callback is answered from another goroutine behind a gate
+		w.OnSubscribe = func(c *vfConn, e SubscribeEvent, cb SubscribeCallback) {
+			rep := SubscribeReply{Options: subOpts(e.Channel)}
+			if asyncCb == c.Name+":"+e.Channel {
+				go func() {
+					w.Gates.Pass("cb:" + c.Name + ":" + e.Channel)
+					cb(rep, nil)
+				}()
+				return
+			}
+			cb(rep, nil)
 		}
 		nc := len(cs.Users)
 		conns := make([]*vfConn, nc)
@@ -382,6 +414,7 @@ func vfC06Run(t *testing.T, cs vfC06Case, out *vfC06Out, isKnown func(string) bo
 		var rmArmed []string
 		keepArmed := map[string]bool{} // multi-park: add gates (by channel) of the parked connection that are still armed
 		secondParkOverlap := false
+		raceOverlap := false
 		unsubDuringPark := map[string]bool{} // channels of parkedConn unsubscribed while its tick was parked
 		resubDuringRm := map[string]bool{}   // channels of parkedConn re-subscribed while the compensating remove was parked
 		overlapped := false
@@ -726,6 +759,56 @@ func vfC06Run(t *testing.T, cs vfC06Case, out *vfC06Out, isKnown func(string) bo
 				}
 				secondParkOverlap = true
 				out.labels = append(out.labels, "same_tick_parked_again")
+			case 7: // unsubscribe while a subscribe with presence is in flight (reservation only, flags == 0)
+				if parkedConn >= 0 || !open[ci] || model[ci][ch] {
+					continue
+				}
+				gate := gateAdd(ci, ch)
+				if s.SubGate == 0 {
+					gate = "cb:" + conn.Name + ":" + ch
+					asyncCb = conn.Name + ":" + ch
+				}
+				w.Gates.Arm(gate, 1)
+				if s.SubGate == 0 || s.Mode == 0 {
+					go conn.Cmd(&protocol.Command{Id: conn.NextID(), Subscribe: &protocol.SubscribeRequest{Channel: ch}})
+				} else {
+					o := subOpts(ch)
+					go func() { _ = conn.Client.Subscribe(ch, func(so *SubscribeOptions) { *so = o }) }()
+				}
+				vfSettle()
+				asyncCb = ""
+				if w.Gates.Waiting(gate) == 0 {
+					releaseNames([]string{gate})
+					return fmt.Sprintf("step %d %s: the subscribe did not reach its gate; frames: %s", si, s, vfRenderFrames(conn.Frames()))
+				}
+				switch s.UnsubMode {
+				case 0:
+					go conn.Cmd(&protocol.Command{Id: conn.NextID(), Unsubscribe: &protocol.UnsubscribeRequest{Channel: ch}})
+				case 1:
+					go conn.Client.Unsubscribe(ch)
+				default:
+					go func() { _ = w.node.Unsubscribe(conn.User, ch, WithUnsubscribeClient(conn.Client.ID())) }()
+				}
+				vfSettle() // the unsubscribe now waits on the reservation's subscribingCh (channel + timer: durable)
+				if s.Hold {
+					time.Sleep(6 * time.Second) // past the 5 s wait: the unsubscribe gives up and disconnects the client
+					vfSettle()
+				}
+				releaseNames([]string{gate})
+				vfSettle()
+				time.Sleep(100 * time.Millisecond)
+				vfSettle()
+				out.labels = append(out.labels, "unsubscribe_waits_for_inflight_subscribe")
+				raceOverlap = true
+				conn.Client.mu.RLock()
+				closedNow := conn.Client.status == statusClosed
+				conn.Client.mu.RUnlock()
+				if closedNow {
+					out.labels = append(out.labels, "unsubscribe_wait_timed_out_connection_closed")
+					open[ci] = false
+					model[ci] = map[string]bool{}
+				}
+				// otherwise the unsubscribe was ordered after the subscribe and tore it down: model stays "not subscribed"
 			case 5:
 				time.Sleep(time.Duration(s.Adv) * time.Second)
 				vfSettle()
@@ -746,7 +829,7 @@ func vfC06Run(t *testing.T, cs vfC06Case, out *vfC06Out, isKnown func(string) bo
 		if m := check("at the settled end"); m != "" {
 			return m
 		}
-		if overlapped {
+		if overlapped || raceOverlap {
 			out.nontrivial = true
 			out.labels = append(out.labels, "world_nontrivial")
 		}
